@@ -76,6 +76,24 @@ def worker(arg):
                     diff.append(("a documented way of designating target and root failed", type(ex).__name__, str(ex)[:300]))
             except Exception as ex:
                 diff.append(("exception other than InvalidDefinitionError", type(ex).__name__, str(ex)[:300]))
+            # the same file once more in this process, designated through an INNER directory as its root namespace
+            # directory: the identity is the path relative to whatever directory is designated (nothing learnt about this
+            # directory in the first call may be carried over)
+            if c["depth"] >= 1 and not diff:
+                inner_root = os.path.join(root_abs, NS[c["depth"]][0])
+                try:
+                    res2 = pydsdl.read_namespace(inner_root, allow_unregulated_fixed_port_id=True)
+                    t2 = res2[0] if len(res2) == 1 else None
+                    comps = NS[c["depth"]] + [c["name"]]
+                    if t2 is None or t2.full_name != ".".join(comps) or str(t2.source_file_path_to_root) != inner_root \
+                            or str(t2.source_file_path) != file_abs or t2.root_namespace != comps[0]:
+                        diff.append(("identity / back pointers when an inner directory is the root", None if t2 is None else
+                                     (t2.full_name, str(t2.source_file_path_to_root)), (".".join(comps), inner_root)))
+                except pydsdl.InvalidDefinitionError as ex:
+                    if NS[c["depth"]][-1] != "animals" or c["depth"] != 3:
+                        diff.append(("reading the inner directory as a root namespace failed", type(ex).__name__, str(ex)[:200]))
+                except Exception as ex:
+                    diff.append(("exception other than InvalidDefinitionError (inner root)", type(ex).__name__, str(ex)[:300]))
         finally:
             os.chdir(old)
         # the strategy-by-strategy transcription in Paths.tla predicts the outcome of every combination, promised or not
@@ -123,7 +141,8 @@ def run(ctx):
                 "short names x five working directories x three target spellings x four root designations x second root "
                 "absent/before/after x API (read_files, read_namespace): each is executed in a real directory tree with "
                 "chdir; successes are compared with the path-derived identity and back pointers, failures must be "
-                "InvalidDefinitionError, promised combinations must succeed. 21 malformed and 4 well-formed file / directory "
+                "InvalidDefinitionError, promised combinations must succeed; nested files are read once more in the same process with "
+                "the inner directory designated as root. 21 malformed and 4 well-formed file / directory "
                 "names are read in target and lookup position. Non-trivial = promised combination")
     ctx.assumptions = ["TLC's evaluation of the specification", "int() leniency in file names (+5, -0, 1_0, blanks) is not judged",
                        "root names are unique along each path; no two roots contain the same relative target"]
